@@ -50,9 +50,10 @@ class KendallStub:
     """scipy.stats.kendalltau(x, y): fresh tau in [-1, 1]; NaN iff a column is constant.
     Only the default variant ('b') is accepted."""
 
-    def __init__(self, name='tau'):
+    def __init__(self, name='tau', check_const=True):
         self.name = name
         self.n = 0
+        self.check_const = check_const
 
     def __call__(self, x, y, *args, **kw):
         ctx = Ctx.cur
@@ -63,7 +64,7 @@ class KendallStub:
         ctx.log.append(('kendalltau', x.copy(), y.copy()))
         if len(x) != len(y):
             raise ValueError('kendalltau: lengths differ')
-        if len(x) < 2 or all_equal(x) or all_equal(y):
+        if len(x) < 2 or (self.check_const and (all_equal(x) or all_equal(y))):
             return (float('nan'), float('nan'))
         self.n += 1
         t = SymReal(z3.Real(f'{self.name}{self.n}'))
